@@ -36,13 +36,20 @@ def leg_a(ctx, cfgs, nonvac):
     """cfgs: [(cfg, label, kwargs)]; nonvac: [(cfg, expected invariant)]"""
     for cfg, label, kw in cfgs:
         vlib.tlc_mc(ctx, "PipeConn", cfg, label=label, **kw)
+    ctx.cov["non_vacuity"] = nonvac_runs(ctx, "PipeConn", nonvac)
+
+
+def nonvac_runs(ctx, spec, nonvac):
+    """deviation-switch configs, run concurrently (each is a ~2 s TLC run dominated by JVM start)"""
+    from concurrent.futures import ThreadPoolExecutor
+    with ThreadPoolExecutor(max_workers=6) as ex:
+        res = list(ex.map(lambda ci: vlib.run_tlc(ctx, spec, ci[0], expect_violation=True, workers=2, timeout=300), nonvac))
     nv = []
-    for cfg, inv in nonvac:
-        r = vlib.run_tlc(ctx, "PipeConn", cfg, expect_violation=True, workers=4, timeout=300)
+    for (cfg, inv), r in zip(nonvac, res):
         if r["violated"] != inv:
             raise vlib.Infra("non-vacuity run %s: expected %s to fail, got %r" % (cfg, inv, r["violated"]))
         nv.append("%s fails under %s" % (inv, cfg))
-    ctx.cov["non_vacuity"] = nv
+    return nv
 
 
 def gen_cfg(**repl):
